@@ -78,7 +78,11 @@ Visible(c, t, s) ==
     IF EntriesOf(c, t, s) = {} THEN NoProps
     ELSE c.fr[c.stk[t][SetMax(EntriesOf(c, t, s))].f].logical
 
-\* what every thread observes through every context instance
+\* What every thread observes through every context instance.  "Any point of any program"
+\* includes the inside of callbacks: the harness takes the observation of the acting thread
+\* directly, nested (inside with_current(|outer| ..): another with_current, a frame opened
+\* there, an event emitted there) and after a panic raised inside a with_current / Frame::with
+\* callback and caught on the spot - all of them must show Visible; none is a state change.
 Obs(c) == [t \in Threads |-> [i \in Insts |-> Visible(c, t, StoreOf[i])]]
 
 -----------------------------------------------------------------------------
